@@ -2,9 +2,9 @@
    Statements only, over the line state machine model Delta.v (tied to the code by the
    correspondence check of tools/check_c01.py). *)
 From Coq Require Import String.
-From Coq Require Import List Bool NArith.
+From Coq Require Import List Bool NArith ZArith.
 Import ListNotations.
-From DV Require Import Text Delta DeltaFacts DeltaOrder.
+From DV Require Import Text Delta DeltaFacts DeltaOrder MinusCounter MinusCounterFacts GenCounter.
 
 (* The history of a state: everything rendered so far, in the order in which it reaches
    the writer = written ++ output buffer ++ buffered removed lines ++ buffered added lines.
@@ -82,3 +82,25 @@ Example C01_example_side_condition :
      lit " c"%string; lit "-o"%string; lit "+n"%string; lit "diff --git a/y b/y"%string; lit "old mode 100644"%string;
      lit "new mode 100755"%string]) = true.
 Proof. vm_compute. reflexivity. Qed.
+
+(* Plain `diff -u` output: a removed line whose text begins with "-- " looks like a `--- ` file
+   header.  The code counts, after each hunk line, exactly the old-file lines (read from the
+   source on every run) ... *)
+Theorem C01_code_counts_old_lines :
+  (forall k, code_counted k = is_old k) /\ code_relevant_if_gt = RELEVANT_IF_GT /\ code_expect_header_le = BinNums.Z0.
+Proof. split; [intros k; destruct k; reflexivity | split; reflexivity]. Qed.
+
+(* ... so inside a hunk whose header announces its true number of old-file lines, a `--- ` line
+   is a removed line as long as old-file lines remain (it is shown as a hunk line, not swallowed
+   as a header), for every hunk shape ... *)
+Theorem C01_diffu_removed_line_not_header : forall pre k post c0,
+  must_count c0 = true -> is_old k = true ->
+  three_dashes_expected (after code_counted (arm c0 (n_counted is_old (pre ++ k :: post))) pre) = false.
+Proof. intros pre k post c0. exact (inside_hunk_not_a_header code_counted pre k post c0 (proj1 C01_code_counts_old_lines)). Qed.
+
+(* ... and after the last line of the hunk the next `--- ` line is a file header again, with the
+   counter still armed for the next hunk *)
+Theorem C01_diffu_header_after_hunk : forall body c0, must_count c0 = true ->
+  three_dashes_expected (after code_counted (arm c0 (n_counted is_old body)) body) = true /\
+  must_count (after code_counted (arm c0 (n_counted is_old body)) body) = true.
+Proof. intros body c0. exact (after_hunk_header_expected code_counted body c0 (proj1 C01_code_counts_old_lines)). Qed.
